@@ -28,7 +28,7 @@ type C09Case struct {
 	Manifest string       `json:"manifest"` // extra manifest of main (outputs) when Cmd == generate
 }
 
-const c09Rule = "a valid generated layout (main + 0-2 imports, one possibly importing the other, + 0-2 previous versions, 1-3 files) with exactly one injected violation of a documented rule; non-trivial = the violation is not at the top level of the main package's first file (it is nested inside containers/generic arguments/union cases, or sits in another file, an imported package, a package imported by an import, or a previous version; in a third of the import cases the packages are arranged in sub-directories so that the relative path a nested package uses for its import would, taken from the top-level package directory, reach a valid decoy package of the same namespace); distinct = hash of all files"
+const c09Rule = "a valid generated layout (main + 0-2 imports, one possibly importing the other, + 0-2 previous versions, 1-3 files, in a quarter of the cases written as several YAML documents per file) with exactly one injected violation of a documented rule; non-trivial = the violation is not at the top level of the main package's first file (it is nested inside containers/generic arguments/union cases, or sits in another file, an imported package, a package imported by an import, or a previous version; in a third of the import cases the packages are arranged in sub-directories so that the relative path a nested package uses for its import would, taken from the top-level package directory, reach a valid decoy package of the same namespace); distinct = hash of all files"
 
 // badType returns a type expression that violates `rule`, or nil if the rule is not a type-level rule.
 func badType(t *rapid.T, rule string, p *model.Package, env *model.Env) *model.Type {
@@ -508,6 +508,24 @@ func genC09(t *rapid.T) (C09Case, bool) {
 	c.Layout = model.EmitLayout(root, model.EmitOptions{ExtraManifest: c.Manifest})
 	if rapid.IntRange(0, 2).Draw(t, "relocate") == 0 {
 		relocateC09(&c, root)
+	}
+	if rapid.IntRange(0, 3).Draw(t, "multiDoc") == 0 {
+		// model files written as several YAML documents (the same cuts in the invalid layout and in the
+		// control; the rule must be enforced in whichever document the violation lands)
+		mask := rapid.Uint64().Draw(t, "multiDocCuts") | rapid.Uint64().Draw(t, "multiDocCuts2")
+		for _, l := range []model.Layout{c.Layout, c.Control} {
+			for dir, files := range l {
+				out := model.Files{}
+				for n, txt := range files {
+					if n != "_package.yml" {
+						txt = model.SplitDocuments(txt, func(i int) bool { return mask&(1<<uint(i%64)) != 0 })
+					}
+					out[n] = txt
+				}
+				l[dir] = out
+			}
+		}
+		c.Nesting += ",multi-document"
 	}
 	return c, true
 }
